@@ -207,7 +207,10 @@ func idlessKeyCollision(doc any) bool {
 
 // sharedParamNameTwins: a path item with an inline complex body schema among its path-level parameters, nested one level
 // at least, and two operations whose (mangled) ids are equal up to letter case.
-func sharedParamNameTwins(doc any) bool {
+func sharedParamNameTwins(doc any) bool { return sharedParamTwins(doc, true) }
+
+// sharedParamTwins: … with requireNested = false, any inline object schema in a path-level body parameter counts.
+func sharedParamTwins(doc any, requireNested bool) bool {
 	paths, _ := get(doc, "paths").(map[string]any)
 	for p, pi := range paths {
 		pm, _ := pi.(map[string]any)
@@ -216,6 +219,9 @@ func sharedParamNameTwins(doc any) bool {
 			for _, prm := range ps {
 				sch, _ := get(prm, "schema").(map[string]any)
 				props, _ := sch["properties"].(map[string]any)
+				if !requireNested && len(props) > 0 {
+					nested = true
+				}
 				for _, v := range props {
 					if vm, ok := v.(map[string]any); ok {
 						if _, has := vm["properties"]; has {
@@ -242,7 +248,7 @@ func sharedParamNameTwins(doc any) bool {
 		}
 		for i := range names {
 			for j := i + 1; j < len(names); j++ {
-				if names[i] != names[j] && strings.EqualFold(names[i], names[j]) {
+				if strings.EqualFold(names[i], names[j]) {
 					return true
 				}
 			}
